@@ -68,7 +68,7 @@ RuleCfgs(src) ==
 
 \* per-file type rules exist in luahelper.json only
 TypeRuleCfgs ==
-       {[AllOn("json") EXCEPT !.ftype = {<<r, t>>}] : r \in Rules, t \in {2, 4, 5, 6, 13}}
+       {[AllOn("json") EXCEPT !.ftype = {<<r, t>>}] : r \in Rules, t \in {2, 4, 5, 6, 13, 18}}
   \cup {[AllOn("json") EXCEPT !.ftype = {<<"alpha/", 4>>, <<"alpha/one.lua", 2>>}, !.off = {5}]}
 
 \* a settings change following an earlier, different settings change: only the last one counts
